@@ -131,6 +131,19 @@ pub fn newc_archive(files: &[FFile], order: &[usize]) -> Vec<u8> {
     o
 }
 
+/// As `newc_archive`, with the entry names as rpmbuild writes them into source packages: the bare path, no "./" in front.
+pub fn newc_archive_bare(files: &[FFile], order: &[usize]) -> Vec<u8> {
+    let mut o = vec![];
+    for &i in order {
+        let f = &files[i];
+        let mut e = Newc::file(f.path().trim_start_matches('/'), f.mode as u32, i as u32 + 1, &f.archive_data());
+        e.mtime = f.mtime;
+        refcpio::write_newc(&mut o, &e);
+    }
+    refcpio::write_trailer(&mut o);
+    o
+}
+
 /// rpm's stripped archive (as rpm writes it for packages with files > 4 GiB).
 pub fn stripped_archive(files: &[FFile], order: &[usize]) -> Vec<u8> {
     let mut o = vec![];
